@@ -141,11 +141,16 @@ Proof.
     rewrite (wake_grant_state s1 k r (w_conn w) Hcore) in Es2. cbv zeta in Es2.
     destruct (0 <? c_expried (l_cmd (getl s1 r))).
     + (* a hold *)
-      apply (JR_transfer (Some r) s1 s2 xe xe J1); [rewrite Es2; apply NF_bump; apply NF_grant_core; exact Np|auto|].
-      intros t l' Et Hl'. assert (t = r) by congruence. subst t. assert (Hl2 := Hl'). rewrite Es2 in Hl2.
-      change (store (bump _ (grant_core (wg_pre s1 r) k r))) with (store (grant_core (wg_pre s1 r) k r)) in Hl2.
-      destruct (grant_core_target _ _ _ xe _ Hl2) as (A & B & C).
-      apply (JRr_held s2 xt xe k r l' GE Hl'); [lia|exact B|]. rewrite Es2. exact C.
+      pose proof (NF_grant_core s1 (wg_pre s1 r) k r Np) as Ng.
+      pose proof (grant_core_target (wg_pre s1 r) k r xe) as Tg.
+      remember (grant_core (wg_pre s1 r) k r) as y eqn:Ey.
+      assert (Est : store s2 = store y) by (rewrite Es2; reflexivity).
+      assert (Eew : ewheel s2 = ewheel y) by (rewrite Es2; reflexivity).
+      assert (Eel : elong s2 = elong y) by (rewrite Es2; reflexivity).
+      apply (JR_transfer (Some r) s1 s2 xe xe J1); [rewrite Es2; apply NF_bump; exact Ng|auto|].
+      intros t l' Et Hl'. assert (t = r) by congruence. subst t. assert (Hl2 := Hl'). rewrite Est in Hl2.
+      destruct (Tg l' Hl2) as (A & B & C).
+      apply (JRr_held s2 xt xe k r l' GE Hl'); [lia|exact B|]. unfold Ein in *. rewrite Eew, Eel. exact C.
     + (* no hold: the record stays in the wait queue as a tombstone *)
       assert (N2 : NF None None (wg_pre s1 r) s2).
       { rewrite Es2. apply NF_bump. unfold wg_nohold. destruct (has_data_flag (l_cmd (getl s1 r))); [|apply NF_refl]. cbv zeta.
@@ -177,4 +182,33 @@ Proof.
   intros G Hw HJ. unfold finish. destruct w as [w0|]; [|exact HJ].
   pose proof (run_wake_JR (wake_fuel s (w_key w0)) s xt xe k w0 G (Hw w0 eq_refl) HJ) as P.
   destruct (run_wake (wake_fuel s (w_key w0)) s w0) as [s' ev']. exact P.
+Qed.
+
+(* ---------------------------------------------------------------- the same target facts for a general rest ghost
+   (no owed / popped / pre-counted references; counters may be pending) *)
+Definition rest_ghost (g : ghost) : Prop := g_owe g = [] /\ g_ph g = [] /\ g_pre g = [].
+
+Lemma ginv_refc_g s g r l : GInv s g -> rest_ghost g -> aget (store s) r = Some l ->
+  N.to_nat (l_refc l) = (occ r (holders (getm s (l_key l))) + occ r (m_wq (getm s (l_key l))) + tcount s g r + ecount s g r)%nat.
+Proof.
+  intros G (H1 & H2 & H3) Hr. pose proof (ro_refc _ _ _ _ (gi_rec _ _ G r l Hr)) as R. rewrite H1, H2, H3 in R. simpl in R. lia.
+Qed.
+Lemma Ein_ecount_g s g r : Ein s (g_xe g) r -> (1 <= ecount s g r)%nat.
+Proof.
+  intros [[key P]|[[key P]|P]]; unfold ecount.
+  - apply in_wheel_get_wrefs in P. apply occ_In in P. lia.
+  - apply in_wheel_get_wrefs in P. apply occ_In in P. lia.
+  - apply occ_In in P. lia.
+Qed.
+Lemma JRr_ref_wq_g s g xe r l : GInv s g -> rest_ghost g -> aget (store s) r = Some l -> l_locked l = 0 ->
+  In r (m_wq (getm s (l_key l))) -> JRr s xe r l.
+Proof.
+  intros G Hg Hr Hd Hi. pose proof (ginv_refc_g s g r l G Hg Hr) as R. apply occ_In in Hi.
+  apply JRr_refc; [lia|exact Hd].
+Qed.
+Lemma JRr_ref_e_g s g r l : GInv s g -> rest_ghost g -> aget (store s) r = Some l -> l_locked l = 0 ->
+  Ein s (g_xe g) r -> JRr s (g_xe g) r l.
+Proof.
+  intros G Hg Hr Hd Hi. pose proof (ginv_refc_g s g r l G Hg Hr) as R. pose proof (Ein_ecount_g s g r Hi).
+  apply JRr_refc; [lia|exact Hd].
 Qed.
